@@ -74,9 +74,34 @@ PROPS = {
             "stub": ["SimBackend job queue, clock, representation, failures (sim/tksim.py)",
                      "M3 branch simulator and classical post-processing evaluator (sim/tksim.py)"]},
     },
+    "C01": {
+        "engine": "session",
+        "quick": (2500, 30), "thorough": (60000, 700),
+        "slices": [("rewrite", "C06", 120, 2500), ("rewrite", "C07", 60, 1200), ("rewrite", "C05", 400, 8000),
+                   ("backend", "C13", 60, 1500), ("grammar", "C18", 300, 8000)],
+        "rule": ("Each run: one diagram family (cat, monoidal, rigid, tensor, circuit, zx, biclosed, cartesian), "
+                 "a pool of values built from random specs, boxes, identities and family-specific generators, "
+                 "30-100 scheduled client requests: >>, <<, @, then(*others), dagger, slices incl. backwards and "
+                 "stepped, indexing, iteration, interchange, normal_form, lazy normalize/foliate tasks, foliation, "
+                 "flatten, depth/width, swap, permutation, permute, cups, caps, Cup, Cap, fa/ba/fc/bc/fx/bx, curry, "
+                 "transpose, bubble, downgrade, functor images (dict or callable maps, images of length 0-2, "
+                 "failing callbacks), the raw scanning constructor; a per-run share of requests is deliberately "
+                 "ill-typed. DISTINCT by (family, operation, repr of the returned value); all NON-TRIVIAL (each "
+                 "is a returned diagram that was scanned)."),
+        "assumptions": [
+            "well-typed = the caller-side scan of sim/build.py (types compared as lists of objects) and the "
+            "in-library monitor of sim/world.py agree with dom, cod, boxes, offsets, layers",
+            "a request is ill-typed when the M1-side type comparison says so (non-composable >>, wrong offsets or "
+            "codomain, non-adjoint cups, non-permutations, connected interchange, out-of-range index, slice step "
+            "other than 1 or -1); any exception is accepted as a refusal",
+            "legal requests may raise (the statement only constrains values that are handed back)"],
+        "real_stub": {
+            "real": ["/repo/discopy working tree, all eight diagram classes, hooks on"],
+            "stub": ["invariant monitor installed into discopy._verif.on_construct", "caller-side scan, M1 type scan"]},
+    },
     "C18": {
         "engine": "grammar",
-        "quick": (5000, 45), "thorough": (150000, 700),
+        "quick": (2500, 45), "thorough": (150000, 700),
         "rule": ("Each run mixes (swarm weights per run): CFG.generate on random grammars (1-4 symbols, 1-7 "
                  "productions, empty right-hand sides, unit and recursive productions, unreachable symbols) with "
                  "every random.shuffle outcome decided by the simulator (policies: random, constant, alternating, "
@@ -113,7 +138,7 @@ def known_for(prop):
 def replay_file(path, quiet=False):
     with open(path) as f:
         doc = json.load(f)
-    prop = doc["property"]
+    prop = doc.get("world_prop", doc["property"])
     engine = importlib.import_module("sim.engines." + doc["engine"])
     _, v, k = core.execute(engine, prop, doc["config"], doc["ops"])
     return doc, v, k
@@ -185,30 +210,51 @@ def cmd_check(prop, tier, seed, runs=None, wall=None, workers=None, first_index=
     agg = core.run_batch(spec["engine"], prop, seed, n_runs, tier, wall_cap, workers=workers,
                          first_index=first_index)
     suppressed = {}
-    for res in agg["violations"]:
-        matched = None
-        for e in known_for(prop):
-            if finding_matches(engine, e, res):
-                matched = e
-                break
-        if matched:
-            suppressed[matched["id"]] = suppressed.get(matched["id"], 0) + 1
-            continue
-        n_violations += 1
-        if n_violations > 5:
-            continue          # counted; only the first five get replay files
-        raw = core.write_replay(prop, spec["engine"], seed, res, res["ops"], res["violation"],
-                                False, tree, suffix=".raw")
-        path = raw
-        if res.get("min_ops"):
-            path = core.write_replay(prop, spec["engine"], seed, res, res["min_ops"],
-                                     res["min_violation"], True, tree)
-        v = res.get("min_violation") or res["violation"]
-        print("violation in run %d (%d ops, minimised to %s): %s: %s" % (
-            res["run_index"], len(res["ops"]),
-            len(res["min_ops"]) if res.get("min_ops") else "n/a", v["kind"], v["message"]))
-        print("VIOLATION property=%s replay=%s" % (prop, os.path.relpath(path, core.VERIF_DIR)))
-        exit_code = 1
+    batches = [(spec["engine"], prop, agg)]
+    slice_cov = {}
+    for eng_name, wprop, nq, nt in spec.get("slices", []):
+        # runs of the other engines with the monitor and caller-side scans as the only C01 oracles
+        n_slice = nq if tier == "quick" else nt
+        if runs:
+            n_slice = max(1, n_slice * runs // spec[tier][0])
+        sl = core.run_batch(eng_name, wprop, seed, n_slice, tier, max(10, wall_cap // 3), workers=workers,
+                            cfg_override={"monitor_is_violation": True}, first_index=first_index,
+                            do_min=prop + ".")
+        batches.append((eng_name, wprop, sl))
+        slice_cov["%s/%s" % (eng_name, wprop)] = {
+            "runs": sl["runs"], "steps": sl["steps"],
+            "foreign_violations_ignored": len([r for r in sl["violations"]
+                                               if not r["violation"]["kind"].startswith(prop + ".")]),
+            "monitor_fired": sl["counters"].get("monitor_fired", 0)}
+        agg["harness"] += sl["harness"]
+    for eng_name, wprop, batch in batches:
+        eng = importlib.import_module("sim.engines." + eng_name)
+        for res in batch["violations"]:
+            vio = res.get("min_violation") or res["violation"]
+            if not res["violation"]["kind"].startswith(prop + ".") and wprop != prop:
+                continue            # reported by that property's own check
+            matched = None
+            for e in known_for(prop):
+                if finding_matches(eng, e, res):
+                    matched = e
+                    break
+            if matched:
+                suppressed[matched["id"]] = suppressed.get(matched["id"], 0) + 1
+                continue
+            n_violations += 1
+            if n_violations > 5:
+                continue          # counted; only the first five get replay files
+            raw = core.write_replay(prop, eng_name, seed, res, res["ops"], res["violation"],
+                                    False, tree, suffix=".raw", world_prop=wprop)
+            path = raw
+            if res.get("min_ops"):
+                path = core.write_replay(prop, eng_name, seed, res, res["min_ops"],
+                                         res["min_violation"], True, tree, world_prop=wprop)
+            print("violation in run %d of %s/%s (%d ops, minimised to %s): %s: %s" % (
+                res["run_index"], eng_name, wprop, len(res["ops"]),
+                len(res["min_ops"]) if res.get("min_ops") else "n/a", vio["kind"], vio["message"]))
+            print("VIOLATION property=%s replay=%s" % (prop, os.path.relpath(path, core.VERIF_DIR)))
+            exit_code = 1
     for h in agg["harness"]:
         print("%s (run %s)\n%s" % (h["harness"], h.get("run_index"), h.get("trace", "")))
         if exit_code == 0:
@@ -240,7 +286,10 @@ def cmd_check(prop, tier, seed, runs=None, wall=None, workers=None, first_index=
         "real_vs_stub": spec.get("real_stub", REAL_STUB),
         "tree": tree, "workers": workers or min(16, os.cpu_count() or 1),
         "harness_errors": len(agg["harness"]),
+        "slowest_runs_wall_s_and_index": agg.get("slowest", []),
     }
+    if slice_cov:
+        cov["slices_of_other_engines_policed_by_the_monitor"] = slice_cov
     extra = getattr(engine, "evidence_extra", None)
     if extra:
         cov.update(extra(prop, counters))
